@@ -515,6 +515,61 @@ def part_histories(res, rng, n_tuples):
             res.sample(dict(case, inputs=f"{len(inputs)} sampled inputs 0..32768"))
 
 
+def part_other_writers(res, rng, n):
+    """The bundle is not the only writer of its destinations: between two sends something else moves the destination
+    controller (a direct assignment, a second bundle mapped onto the same controller, a save/load of nothing in particular).
+    Inputs rise strictly, in small and in large steps: what each send leaves in the destination is in range and never below
+    (normal window) / above (reversed window) what the previous send left there."""
+    import rv.api as api
+    from rv.modules import MODULE_CLASSES
+    from rv.modules.multictl import MultiCtl
+    sp = spec.load()
+    ranged = [r for r in _ranged_targets() if r[2] != "compact"]
+    for k in range(n):
+        T, cname, ckind, lo, hi = rng.choice(ranged)
+        cls = MODULE_CLASSES[sp[T].mtype]
+        p = api.Project()
+        m = p.new_module(cls)
+        number = cls.controllers[cname].number
+        reverse = rng.random() < 0.3
+        a, b = (32768, 0) if reverse else (0, 32768)
+        mc = p.new_module(MultiCtl, gain=256, quantization=rng.choice([32768, 32768, 64, 7]), mappings=[(a, b, number, 0, 0, 0, 0, 0)])
+        mc >> m
+        mc2 = p.new_module(MultiCtl, mappings=[(0, 32768, number, 0, 0, 0, 0, 0)])
+        mc2 >> m
+        case = {"part": "other-writers", "target": [T, cname, lo, hi], "reversed": reverse, "quantization": mc.quantization}
+        res.case(("other-writers", T, cname, reverse, mc.quantization, k))
+        v, prev, sends = rng.randint(0, 2000), None, []
+        while v <= 32768:
+            mc.value = v
+            got = _val(getattr(m, cname))
+            sends.append((v, got))
+            res.evaluations += 1
+            if got < lo or got > hi:
+                res.violation(f"C20:out-of-range:{ckind}", f"value={v}: {T}.{cname} holds {got} outside [{lo},{hi}] ({case})", dict(case, sends=sends[-4:]))
+                break
+            if prev is not None and ((not reverse and got < prev) or (reverse and got > prev)):
+                res.violation(f"C20:not-monotone:{ckind}:{'reversed' if reverse else 'normal'}:other-writers",
+                              f"{T}.{cname} was left at {got} by input {v} after input {sends[-2][0]} had left {prev} there; in between {sends[-2][2] if len(sends[-2]) > 2 else 'nothing'} "
+                              f"moved the controller ({case})", dict(case, sends=[list(s) for s in sends[-4:]]))
+                break
+            prev = got
+            # ... someone else writes the destination
+            who = rng.choice(("direct-lo", "direct-hi", "direct-any", "second-bundle", "none", "none"))
+            if who == "direct-lo":
+                setattr(m, cname, lo)
+            elif who == "direct-hi":
+                setattr(m, cname, hi)
+            elif who == "direct-any":
+                setattr(m, cname, rng.randint(lo, hi))
+            elif who == "second-bundle":
+                mc2.value = rng.choice([0, 32768, rng.randint(0, 32768)])
+            sends[-1] = (v, got, who)
+            res.count("sends_followed_by_another_writer" if who != "none" else "sends_followed_by_nothing")
+            v += rng.choice([1, 1, 2, 5, 40, 300, 3000])
+        res.count("other_writer_bundles")
+
+
 # ------------------------------------------------------------------ (b2') loaded bundles whose links carry identical mappings
 def part_loaded_twins(res, rng, n):
     """Two (or more) targets of one type behind byte-identical mappings; the project is saved and loaded (or cloned); ONE mapping
@@ -680,6 +735,7 @@ def run_shard(spec_, res):
         part_histories(res, rng, spec_["tuples"] * 25)
         part_nested(res, rng, spec_["tuples"] * 5)
         part_loaded_twins(res, rng, spec_["tuples"] * 6)
+        part_other_writers(res, rng, spec_["tuples"] * 4)
     else:
         part_pure(res, rng, spec_["tuples"])
 
